@@ -91,6 +91,14 @@ CHECKS = {
          "sockets, every data mutant through Tx/RxMsg.parse_msg (ValueError only) and every single-octet corruption/truncation of a capture file.",
          "The harness's strict grammar decides what is 'clearly malformed'; unclassifiable inputs are judged for crash-freedom/liveness only.",
          "DESIGN.md 2/C14", "world+enum"),
+ "C20": ("exploration",
+         "bounded-exhaustive enumeration of cell allocations x bitmap lengths x bitmaps inside an ASan/UBSan C driver around the sliced function, reference decoder oracle",
+         "gsm48_decode_mobile_alloc is cut out of the current sysinfo.c at run time and compiled with exact-size heap buffers; all bitmaps up to 2 octets, "
+         "structural bitmaps up to 9 octets (thorough: all 3-octet bitmaps, pairs and triples of bits) over 148+ cell allocations with and without "
+         "ARFCN 0 and both si4 values are decoded and compared with a reference decoder written from TS 44.018 10.5.2.21 (cross-checked by a second "
+         "Python formulation); any sanitizer death is a violation with the concrete input.",
+         "Function slice (the rest of sysinfo.c needs libraries absent from the sandbox); vla-bound check off (zero-length VLA for len 0 is not an access).",
+         "DESIGN.md 2/C20, 1.2", "cbuild"),
 }
 
 PENDING = {}
